@@ -102,6 +102,9 @@ func (s *Scen) syncMsgStep(m *syncMsg) *Step {
 			bnd = "non-first-subnet-of-multi-seat-validator"
 		}
 	}
+	if m.desc == "honest" {
+		bnd = joinTags(bnd, s.forkSlotTag("slot", m.slot))
+	}
 	return &Step{Topic: "syncmsg", Desc: m.desc, Variant: m.variant, Bnd: bnd, Seats: seats, SubSize: s.subSize(), Subnet: int(m.subnet), Cond: cond,
 		Key: map[string][]string{"syncmsg": {keySync(m.slot, m.validator, m.subnet)}}, Now: m.now,
 		Run: func(b *Backend) gossipval.GossipValidatorResult {
@@ -370,6 +373,9 @@ func (s *Scen) contribStep(m *contribMsg) *Step {
 			bnd += "|"
 		}
 		bnd += "aggregator-in-non-first-subcommittee-of-multi-seat-validator"
+	}
+	if m.desc == "honest" {
+		bnd = joinTags(bnd, s.forkSlotTag("slot", m.slot))
 	}
 	return &Step{Topic: "contrib", Desc: m.desc, Variant: m.variant, Bnd: bnd, Seats: seats, SubSize: sub, Subnet: int(m.subIndex), Cond: cond,
 		Key: map[string][]string{"contrib": {keySync(m.slot, m.aggregator, m.subIndex)}}, Now: m.now,
